@@ -703,7 +703,7 @@ pub fn cmd_drive(args: &[String]) -> i32 {
         let mut cfg = Config::default();
         cfg.agreed.insert(1, 2);
         let big_rep = [1000usize, 1500, 2600, 5000, 7000][rng.gen_range(0..5)];
-        for (ty, rep) in [(1, 1), (2, 1), (5, 1), (6, 1), (3, big_rep), (-1, 1), (-2, 1), (-3, big_rep)] {
+        for (ty, rep) in [(7, 13700), (8, 14200), (1, 1), (2, 1), (5, 1), (6, 1), (3, big_rep), (-1, 1), (-2, 1), (-3, big_rep)] {
             cfg.reps.insert(ty, rep);
         }
         writeln!(out, "{}", json!({"e": "reset", "run": run_no, "agreed": cfg.agreed_json()})).unwrap();
@@ -745,7 +745,16 @@ pub fn cmd_drive(args: &[String]) -> i32 {
         for tk in 0..ticks {
             vh_common::set_case(&format!("{{\"seed\":{},\"run\":{},\"tick\":{}}}", seed, run_no, tk));
             let in_calm = calm.iter().any(|&(a, b)| tk >= a && tk < b);
-            world = if neutral_next || in_calm {
+            // Part-count limit, in every run: a 13700-integer item appears alone (a delta of 31 parts whatever
+            // the base is), is replaced by a 14200-integer item (32 parts, the maximum), then the world is empty.
+            let limit_phase = tk >= 3 && tk <= 5;
+            world = if limit_phase {
+                match tk {
+                    3 => vec![ItemSpec { ty: 7, id: 1, rep: 13700, d: vec![rng.gen_range(64..8000)] }],
+                    4 => vec![ItemSpec { ty: 8, id: 1, rep: 14200, d: vec![rng.gen_range(64..8000)] }],
+                    _ => Vec::new(),
+                }
+            } else if neutral_next || in_calm {
                 let w = neutral_change(&mut rng, &world);
                 if in_calm && w.iter().zip(&world).all(|(x, y)| x.d == y.d) {
                     // nothing to permute yet: give the world two items that can swap
@@ -779,7 +788,7 @@ pub fn cmd_drive(args: &[String]) -> i32 {
             let n = n as usize;
             let pending = comp.take();
             let mut comp_lost: Option<Vec<usize>> = None;
-            if !in_blackout && n >= 2 && sys.msgs.len() >= n {
+            if !in_blackout && !limit_phase && n >= 2 && sys.msgs.len() >= n {
                 match pending {
                     Some((n0, lost)) if n0 == n => comp_lost = Some((0..n).filter(|j| !lost.contains(j)).collect()),
                     _ => {
@@ -820,11 +829,11 @@ pub fn cmd_drive(args: &[String]) -> i32 {
             }
             // network activity until the queues are short
             let mut guard = 0;
-            while (sys.msgs.len() > 3 || (!sys.msgs.is_empty() && (in_blackout || rng.gen_bool(0.8)))) && guard < 200 {
+            while (sys.msgs.len() > 3 || (!sys.msgs.is_empty() && (in_blackout || limit_phase || rng.gen_bool(0.8)))) && guard < 200 {
                 guard += 1;
                 // during the black-out everything arrives, in order: more than 100 snapshots are accepted on one base
-                let i = if !in_blackout && rng.gen_bool(p_reorder) { rng.gen_range(1..=sys.msgs.len()) } else { 1 };
-                let step = if !in_blackout && rng.gen_bool(p_loss) {
+                let i = if !in_blackout && rng.gen_bool(if limit_phase { 0.5 } else { p_reorder }) { rng.gen_range(1..=sys.msgs.len()) } else { 1 };
+                let step = if !in_blackout && !limit_phase && rng.gen_bool(p_loss) {
                     json!({"a": "drop_msg", "i": i})
                 } else {
                     json!({"a": "deliver_msg", "i": i, "keep": rng.gen_bool(p_dup)})
